@@ -1,0 +1,39 @@
+//go:build verif
+// +build verif
+
+package log
+
+// VerifSegment is the in-memory descriptor of one segment, for the
+// verification harness.
+type VerifSegment struct {
+	PrevIndex uint64
+	N         int
+	Size      int
+	Synced    int
+	FileSize  int
+	Name      string
+}
+
+// VerifSegments returns the descriptors of the segments from first to last.
+func (l *Log) VerifSegments() []VerifSegment {
+	var segs []VerifSegment
+	for s := l.first; s != nil; s = s.next {
+		segs = append(segs, VerifSegment{
+			PrevIndex: s.prevIndex,
+			N:         s.n,
+			Size:      s.size,
+			Synced:    s.synced,
+			FileSize:  len(s.file.Data),
+			Name:      s.file.Name(),
+		})
+		if s == l.last {
+			break
+		}
+	}
+	return segs
+}
+
+// VerifSegmentSize returns the current value of the SegmentSize option.
+func (l *Log) VerifSegmentSize() int {
+	return l.opt.SegmentSize
+}
